@@ -193,7 +193,7 @@ def snp_events(run, tier, seed, tag, ks=None, n=None):
     return events
 
 
-def indel_events(run, tier, seed, tag, ks=None, fixed_len=None, n=None):
+def indel_events(run, tier, seed, tag, ks=None, fixed_len=None, n=None, twins=False):
     """ks / fixed_len / n given: one class of the stated domain (these k, this indel length), non-tandem only."""
     rng = random.Random(seed)
     one_class = fixed_len is not None
@@ -207,7 +207,10 @@ def indel_events(run, tier, seed, tag, ks=None, fixed_len=None, n=None):
             ns = rng.randint(3, 8)
             nind = rng.randint(1, 3)
             length = rng.randint(10 * k + nind * 5 * k, 14 * k + nind * 6 * k)
-            sc = derive.lo_indel_scenario(rng, k, ns, length, nind, tandem=(ci % 3 == 2 and not one_class), fixed_len=fixed_len)
+            if twins:
+                nind = 3
+                length = rng.randint(10 * k + nind * 5 * k, 14 * k + nind * 6 * k)
+            sc = derive.lo_indel_scenario(rng, k, ns, length, nind, tandem=(ci % 3 == 2 and not one_class), fixed_len=fixed_len, twins=twins)
             if sc is None:
                 continue
             names = ["i%d_%d" % (ci, (7 * i + 3) % 11) for i in range(ns)]      # input order is not the alphabetical order
